@@ -17,7 +17,6 @@
      40 disable_cancel fetch_add(old)  41 enable_cancel fetch_sub(old)  42 check_cancel load  43 is_canceled load
      44 cancel fetch_or(old)  45 cancel self.co.take  46 cancel co.take
      50 Park::check_park load  51 check_park store  52 check_park swap(old)  53 Park::unpark_impl swap(old)
-     54 Park::drop wait_kernel.load
 
    Actors of the trace (coroutines / threads as numbered by the normaliser) are mapped to model tasks by the
    scenario's records (root.start, spawn.pre + kid.start carry the child's path); events of unmapped actors
@@ -38,26 +37,23 @@ Record aux := {
                             6 the model has already left the park (token arrived in the window), code still inside
                             9 resumed, check_park#2 pending | 10 / 11 check_park#2 load saw true / false *)
   ctgt : nat -> nat;     (* trace actor -> target task + 1 of its cancel() *)
-  early : nat -> bool;   (* model task -> its to_wake.store has been replayed before its record (the record of an AtomicOption::store
-                            is written after the old value was dropped, and dropping the old blocker can yield: Park::drop) *)
   nest : nat -> nat;     (* model task -> disable_cancel calls of Park's wait for the kernel half (wait_kernel_yield) in progress *)
   cmap : list (Z * nat); (* identity of a coroutine (address of its handle, logged by root.start / kid.start) -> model task *)
   ojs : nat -> Z; ojw : nat -> Z; opk : nat -> Z }.   (* objects: Join.state / Join.to_wake of a task, token word of a blocker *)
 Definition ast := (st * aux)%type.
-Definition aux0 : aux := {| amap := fun _ => O; pmap := fun _ => O; ph := fun _ => O; ctgt := fun _ => O; early := fun _ => false; nest := fun _ => O; cmap := [];
+Definition aux0 : aux := {| amap := fun _ => O; pmap := fun _ => O; ph := fun _ => O; ctgt := fun _ => O; nest := fun _ => O; cmap := [];
                             ojs := fun _ => 0; ojw := fun _ => 0; opk := fun _ => 0 |}.
 Definition m_init : ast := (init, aux0).
 
-Definition set_amap (x : aux) m := {| amap := m; pmap := pmap x; ph := ph x; ctgt := ctgt x; early := early x; nest := nest x; cmap := cmap x; ojs := ojs x; ojw := ojw x; opk := opk x |}.
-Definition set_pmap (x : aux) m := {| amap := amap x; pmap := m; ph := ph x; ctgt := ctgt x; early := early x; nest := nest x; cmap := cmap x; ojs := ojs x; ojw := ojw x; opk := opk x |}.
-Definition set_ph (x : aux) a p := {| amap := amap x; pmap := pmap x; ph := upd (ph x) a p; ctgt := ctgt x; early := early x; nest := nest x; cmap := cmap x; ojs := ojs x; ojw := ojw x; opk := opk x |}.
-Definition set_ctgt (x : aux) m := {| amap := amap x; pmap := pmap x; ph := ph x; ctgt := m; early := early x; nest := nest x; cmap := cmap x; ojs := ojs x; ojw := ojw x; opk := opk x |}.
-Definition set_cmap (x : aux) m := {| amap := amap x; pmap := pmap x; ph := ph x; ctgt := ctgt x; early := early x; nest := nest x; cmap := m; ojs := ojs x; ojw := ojw x; opk := opk x |}.
-Definition set_nest (x : aux) a n := {| amap := amap x; pmap := pmap x; ph := ph x; ctgt := ctgt x; early := early x; nest := upd (nest x) a n; cmap := cmap x; ojs := ojs x; ojw := ojw x; opk := opk x |}.
-Definition set_early (x : aux) a b := {| amap := amap x; pmap := pmap x; ph := ph x; ctgt := ctgt x; early := upd (early x) a b; nest := nest x; cmap := cmap x; ojs := ojs x; ojw := ojw x; opk := opk x |}.
-Definition set_ojs (x : aux) m := {| amap := amap x; pmap := pmap x; ph := ph x; ctgt := ctgt x; early := early x; nest := nest x; cmap := cmap x; ojs := m; ojw := ojw x; opk := opk x |}.
-Definition set_ojw (x : aux) m := {| amap := amap x; pmap := pmap x; ph := ph x; ctgt := ctgt x; early := early x; nest := nest x; cmap := cmap x; ojs := ojs x; ojw := m; opk := opk x |}.
-Definition set_opk (x : aux) m := {| amap := amap x; pmap := pmap x; ph := ph x; ctgt := ctgt x; early := early x; nest := nest x; cmap := cmap x; ojs := ojs x; ojw := ojw x; opk := m |}.
+Definition set_amap (x : aux) m := {| amap := m; pmap := pmap x; ph := ph x; ctgt := ctgt x; nest := nest x; cmap := cmap x; ojs := ojs x; ojw := ojw x; opk := opk x |}.
+Definition set_pmap (x : aux) m := {| amap := amap x; pmap := m; ph := ph x; ctgt := ctgt x; nest := nest x; cmap := cmap x; ojs := ojs x; ojw := ojw x; opk := opk x |}.
+Definition set_ph (x : aux) a p := {| amap := amap x; pmap := pmap x; ph := upd (ph x) a p; ctgt := ctgt x; nest := nest x; cmap := cmap x; ojs := ojs x; ojw := ojw x; opk := opk x |}.
+Definition set_ctgt (x : aux) m := {| amap := amap x; pmap := pmap x; ph := ph x; ctgt := m; nest := nest x; cmap := cmap x; ojs := ojs x; ojw := ojw x; opk := opk x |}.
+Definition set_cmap (x : aux) m := {| amap := amap x; pmap := pmap x; ph := ph x; ctgt := ctgt x; nest := nest x; cmap := m; ojs := ojs x; ojw := ojw x; opk := opk x |}.
+Definition set_nest (x : aux) a n := {| amap := amap x; pmap := pmap x; ph := ph x; ctgt := ctgt x; nest := upd (nest x) a n; cmap := cmap x; ojs := ojs x; ojw := ojw x; opk := opk x |}.
+Definition set_ojs (x : aux) m := {| amap := amap x; pmap := pmap x; ph := ph x; ctgt := ctgt x; nest := nest x; cmap := cmap x; ojs := m; ojw := ojw x; opk := opk x |}.
+Definition set_ojw (x : aux) m := {| amap := amap x; pmap := pmap x; ph := ph x; ctgt := ctgt x; nest := nest x; cmap := cmap x; ojs := ojs x; ojw := m; opk := opk x |}.
+Definition set_opk (x : aux) m := {| amap := amap x; pmap := pmap x; ph := ph x; ctgt := ctgt x; nest := nest x; cmap := cmap x; ojs := ojs x; ojw := ojw x; opk := m |}.
 
 Definition pc_eqb (x y : pc) : bool :=
   match x, y with
@@ -194,12 +190,8 @@ Definition plan_ev (s : st) (x : aux) (e : list Z) : option plan :=
         (* ---- src/join.rs ---- *)
         | 20 => act_on s a (fun s1 => at_pc s1 a PW0 && Bool.eqb (jstm s1 (c1 s1)) (zb v)) (one a)
                        (fun s1 _ => match bind_obj (ojs x) (c1 s1) o with Some m => Some (set_ojs x m) | None => None end)
-        | 21 => if early x a
-                then match bind_obj (ojw x) (c1 s) o with Some m => Some {| acts := []; nxt := set_early (set_ojw x m) a false |} | None => None end
-                else act_on s a (fun s1 => at_pc s1 a PW1) (one a)
+        | 21 => act_on s a (fun s1 => at_pc s1 a PW1) (one a)
                        (fun s1 _ => match bind_obj (ojw x) (c1 s1) o with Some m => Some (set_ojw x m) | None => None end)
-        (* Park::drop of the blocker that the store replaced (its first access): the store itself has happened *)
-        | 54 => if at_pc s a PW1 && negb (early x a) then Some {| acts := [Step a]; nxt := set_early x a true |} else skip x
         | 22 => act_on s a (fun s1 => at_pc s1 a PW2 && Bool.eqb (jstm s1 (c1 s1)) (zb v) && Z.eqb (ojs x (c1 s1)) o) (one a) (keep x)
         | 23 => act_on s a (fun s1 => at_pc s1 a PW3 && Bool.eqb (is_some (jwakem s1 (c1 s1))) (zb v) && Z.eqb (ojw x (c1 s1)) o) (one a) (keep x)
         | 24 => act_on s a (fun s1 => (at_pc s1 a PF1 || at_pc s1 a PF2) && negb (zb v))
